@@ -4,6 +4,7 @@ go 1.25
 
 require (
 	github.com/gammazero/nexus/v3 v3.0.0
+	github.com/ugorji/go/codec v1.3.1
 	golang.org/x/crypto v0.48.0
 	pgregory.net/rapid v1.3.0
 )
@@ -11,7 +12,6 @@ require (
 require (
 	github.com/gammazero/deque v1.2.1 // indirect
 	github.com/gorilla/websocket v1.5.3 // indirect
-	github.com/ugorji/go/codec v1.3.1 // indirect
 )
 
 replace github.com/gammazero/nexus/v3 => /repo
